@@ -150,8 +150,8 @@ func (factory *proxyFactory) New(clientID []byte, clientSession base.ClientSessi
 	proxy.SubscribeOnAllColumnsDecryption(containerDetector)
 
 	if hmacProcessor != nil {
-		// added same hmacProcessor to check hmac validation after decryption
-		proxy.SubscribeOnAllColumnsDecryption(hmacProcessor)
+		// second stage of the same hmacProcessor: check hmac validation after decryption
+		proxy.SubscribeOnAllColumnsDecryption(hmacProcessor.Verifier())
 	}
 	chainEncryptors = append(chainEncryptors, crypto.NewReEncryptHandler(factory.keystore))
 
